@@ -624,6 +624,131 @@ pub fn run_case(case: &Case, ctx: &mut CaseCtx) -> Result<(), String> {
     if case.string_keys { run_typed::<String>(case, ctx) } else { run_typed::<u64>(case, ctx) }
 }
 
+
+// ---------------------------------------------------------------------------
+// real threads, no scheduler: races INSIDE a synchronous section
+// ---------------------------------------------------------------------------
+
+/// The token-passing scheduler only interleaves at the instrumented yield points; a check-then-act
+/// window between two map operations that contains no yield point is invisible to it (seeded change
+/// C04-3: the uniqueness check moved out of the write-locked entry). Here 2-4 OS threads contend
+/// for the same keys behind a spin barrier per round. The schedule is not owned, so a failure is
+/// not replayable step by step: a replay runs the same parameters 30 times.
+#[derive(Clone, Debug, Serialize, Deserialize)]
+pub struct StressCase {
+    pub threads: u8,
+    pub rounds: u16,
+    pub unique: bool,
+    /// the winner (unique) / every thread (duplicates) removes its association again in every
+    /// third round, racing the inserts of the next key
+    pub removes: bool,
+    pub strings: bool,
+}
+
+fn stress_strategy() -> impl Strategy<Value = StressCase> {
+    (2u8..=4, 150u16..600, prop::bool::weighted(0.7), any::<bool>(), any::<bool>()).prop_map(|(threads, rounds, unique, removes, strings)| StressCase { threads, rounds, unique, removes, strings })
+}
+
+fn stress_once<K: Key + Send + Sync + 'static>(c: &StressCase, key_of: fn(u16) -> K) -> Result<(u64, u64), String> {
+    use std::sync::Arc;
+    use std::sync::atomic::{AtomicU64, AtomicUsize, Ordering};
+    let idx: Arc<BTreeIndex<u64, K>> = Arc::new(new_index::<K>(c.unique));
+    let n = c.threads as usize;
+    let arrived = Arc::new(AtomicUsize::new(0));
+    // per round: bit t set = thread t's insert returned Ok(true)
+    let wins: Arc<Vec<AtomicU64>> = Arc::new((0..c.rounds).map(|_| AtomicU64::new(0)).collect());
+    let errors: Arc<std::sync::Mutex<Vec<String>>> = Arc::new(std::sync::Mutex::new(vec![]));
+    let mut handles = vec![];
+    for t in 0..n {
+        let (idx, arrived, wins, errors, c) = (idx.clone(), arrived.clone(), wins.clone(), errors.clone(), c.clone());
+        handles.push(std::thread::spawn(move || {
+            for r in 0..c.rounds {
+                // spin barrier: everybody starts round r together
+                arrived.fetch_add(1, Ordering::SeqCst);
+                let target = (r as usize + 1) * n;
+                let mut spins = 0u64;
+                while arrived.load(Ordering::SeqCst) < target {
+                    spins += 1;
+                    if spins % 1024 == 0 {
+                        std::thread::yield_now();
+                    }
+                }
+                let id = (r as u64) * 8 + t as u64 + 1;
+                match idx.insert(id, key_of(r), 1) {
+                    Ok(true) => {
+                        wins[r as usize].fetch_or(1 << t, Ordering::SeqCst);
+                    }
+                    Ok(false) => errors.lock().unwrap().push(format!("round {r}: insert({id}, key {r}) of thread {t} answered false for a new association")),
+                    Err(BTreeError::AlreadyExists { .. }) if c.unique => {}
+                    Err(e) => errors.lock().unwrap().push(format!("round {r}: insert({id}, key {r}) of thread {t} failed: {e}")),
+                }
+                if c.removes && r % 3 == 2 {
+                    // remove what this thread inserted two rounds ago (if it won), racing the others
+                    let r0 = r - 2;
+                    if wins[r0 as usize].load(Ordering::SeqCst) & (1 << t) != 0 {
+                        let id0 = (r0 as u64) * 8 + t as u64 + 1;
+                        if !idx.remove(id0, key_of(r0), 2) {
+                            errors.lock().unwrap().push(format!("round {r}: remove({id0}, key {r0}) of thread {t} answered false for an association it owns"));
+                        }
+                        wins[r0 as usize].fetch_and(!(1u64 << t), Ordering::SeqCst);
+                    }
+                }
+            }
+        }));
+    }
+    for h in handles {
+        h.join().map_err(|_| "a stress thread panicked".to_string())?;
+    }
+    if let Some(e) = errors.lock().unwrap().first() {
+        return Err(e.clone());
+    }
+    let (mut contended, mut checked) = (0u64, 0u64);
+    let check = |idx: &BTreeIndex<u64, K>, what: &str| -> Result<(), String> {
+        for r in 0..c.rounds {
+            let w = wins[r as usize].load(Ordering::SeqCst);
+            let want: Vec<u64> = (0..n as u64).filter(|t| w & (1 << t) != 0).map(|t| (r as u64) * 8 + t + 1).collect();
+            if c.unique && want.len() > 1 {
+                return Err(format!("{what}: round {r}: {} threads were told they own the unique key {r} (ids {want:?})", want.len()));
+            }
+            let got = idx.query_with(&key_of(r), |ids| Some(ids_sorted(ids))).unwrap_or_default();
+            if got != want {
+                return Err(format!("{what}: round {r}: key {r} holds {got:?}, the inserts that succeeded and were not removed again are {want:?}"));
+            }
+        }
+        Ok(())
+    };
+    check(&idx, "after the threads finished")?;
+    for r in 0..c.rounds {
+        checked += 1;
+        let w = wins[r as usize].load(Ordering::SeqCst);
+        if c.unique && w.count_ones() <= 1 {
+            contended += 1; // every loser was refused: the round was decided under contention
+        }
+    }
+    // flush + load: the same contents
+    let mut store = Store::default();
+    let (fr, _, _) = flush(&idx, &mut store, usize::MAX);
+    fr?;
+    let loaded: BTreeIndex<u64, K> = load(&store, c.unique)?;
+    check(&loaded, "after flush + load")?;
+    Ok((checked, contended))
+}
+
+pub fn run_stress(c: &StressCase, ctx: &mut CaseCtx) -> Result<(), String> {
+    let repeats = if ctx.strict { 30 } else { 1 };
+    for _ in 0..repeats {
+        let (checked, _) = if c.strings { stress_once::<String>(c, |r| format!("user-{r:05}@example.com"))? } else { stress_once::<u64>(c, |r| r as u64 * 7)? };
+        ctx.count("keys_contended_by_all_threads", checked);
+    }
+    ctx.label(if c.unique { "unique" } else { "duplicates" });
+    ctx.label(format!("threads:{}", c.threads));
+    if c.removes {
+        ctx.label("with_removes");
+    }
+    ctx.nontrivial = true;
+    Ok(())
+}
+
 pub fn run(r: &mut Runner) {
     r.assume("flush is not run concurrently with mutations (documented as the caller's responsibility)");
     r.assume("crash model of a flush: each bucket object write / the metadata commit / each obsolete-object deletion is atomic; the power is lost between them");
@@ -635,6 +760,13 @@ pub fn run(r: &mut Runner) {
         run_case,
     );
     run_threads_subs(r);
+    r.sub(
+        "threads_stress",
+        "2-4 OS threads (no scheduler) x 150-599 rounds: behind a spin barrier every thread inserts its own id under the SAME fresh key (u64 or String keys, unique or duplicate mode), in a third of the rounds the owners remove an earlier association again while the others insert; afterwards, and again after flush + load, every key must hold exactly the ids whose insert succeeded and was not removed - in unique mode at most one per key - and every refusal must be AlreadyExists. Reaches check-then-act windows between two map operations that contain no instrumented yield point. Not replayable step by step: a replay runs the parameters 30 times. Non-trivial = always (every key is contended by all threads)",
+        (240, 6_000),
+        stress_strategy,
+        run_stress,
+    );
 }
 
 // ---------------------------------------------------------------------------
